@@ -10,6 +10,9 @@ package main
 //        load                                NewFileReader(path).LoadIndex()
 //        raw HEX                             HEX = the file's bytes as the *generator's* run of the real
 //                                            writer left them; both sides parse them with their reader
+//        ccfg BS NAMESPEC | cw KEYSPEC CONTENTSPEC | cd KEYSPEC | cclose | cload
+//                                            the same through the chronicler: Write([]Treasure) picks INSERT/DELETE,
+//                                            Close, and a *new* chronicler's Load into a beacon (reply cidx N:CRC)
 // reply: ok | rej KIND
 //        idx N:CRC name=HEX [k=v,…]          | err KIND
 //        raw v=V ec=N bc=N name=HEX blocks=c1,c2,… ents=N:CRC idx=N:CRC det=ok pred=ok    (or …=err:KIND)
@@ -31,7 +34,11 @@ import (
 	"strings"
 
 	"github.com/golang/snappy"
+	"github.com/hydraide/hydraide/app/core/hydra/swamp/beacon"
+	"github.com/hydraide/hydraide/app/core/hydra/swamp/chronicler"
 	v2 "github.com/hydraide/hydraide/app/core/hydra/swamp/chronicler/v2"
+	"github.com/hydraide/hydraide/app/core/hydra/swamp/treasure"
+	"github.com/hydraide/hydraide/app/core/hydra/swamp/treasure/guard"
 )
 
 func init() { Register("C01", Domain{Gen: c01Gen, Run: c01Run}) }
@@ -340,6 +347,88 @@ func (s *c01Sess) apply(f []string) string {
 	return "bad-op"
 }
 
+// ---------------------------------------------------------------- the chronicler on top of the writer
+
+type c01Chron struct {
+	path string
+	ch   chronicler.Chronicler
+}
+
+func (c *c01Chron) apply(dir string, n *int, f []string) string {
+	switch {
+	case f[0] == "ccfg" && len(f) == 3:
+		bs, err := strconv.Atoi(f[1])
+		name, ok := c01Spec(f[2])
+		if err != nil || !ok {
+			return "bad-op"
+		}
+		if c.ch != nil {
+			_ = c.ch.Close()
+		}
+		*n++
+		c.path = filepath.Join(dir, fmt.Sprintf("swamp%06d", *n))
+		if bs == 0 {
+			c.ch = chronicler.NewV2WithName(c.path, 10, string(name))
+		} else {
+			c.ch = chronicler.NewV2WithConfig(c.path, 10, bs, 0.3)
+		}
+		c.ch.CreateDirectoryIfNotExists()
+		return "ok"
+	case c.ch == nil:
+		return "rej nochron"
+	case f[0] == "cw" && len(f) == 3:
+		k, ok1 := c01Spec(f[1])
+		v, ok2 := c01Spec(f[2])
+		if !ok1 || !ok2 {
+			return "bad-op"
+		}
+		t := treasure.New(nil)
+		g := t.StartTreasureGuard(false, guard.BodyAuthID)
+		t.BodySetKey(g, string(k))
+		t.SetContentString(g, string(v))
+		t.ReleaseTreasureGuard(g)
+		c.ch.Write([]treasure.Treasure{t})
+		return "ok"
+	case f[0] == "cd" && len(f) == 2:
+		k, ok := c01Spec(f[1])
+		if !ok {
+			return "bad-op"
+		}
+		t := treasure.New(nil)
+		g := t.StartTreasureGuard(false, guard.BodyAuthID)
+		t.BodySetKey(g, string(k))
+		t.BodySetForDeletion(g, "verif", true)
+		t.ReleaseTreasureGuard(g)
+		c.ch.Write([]treasure.Treasure{t})
+		return "ok"
+	case f[0] == "cclose" && len(f) == 1:
+		if err := c.ch.Close(); err != nil {
+			return "err close"
+		}
+		return "ok"
+	case f[0] == "cload" && len(f) == 1:
+		// an independent chronicler instance, as after a restart
+		ld := chronicler.NewV2(c.path, 10)
+		b := beacon.New()
+		ld.Load(b)
+		idx := map[string][]byte{}
+		for k, t := range b.GetAll() {
+			g := t.StartTreasureGuard(true, guard.BodyAuthID)
+			sv, err := t.GetContentString()
+			t.ReleaseTreasureGuard(g)
+			if err != nil {
+				idx[k] = []byte("<not-a-string:" + err.Error() + ">")
+			} else {
+				idx[k] = []byte(sv)
+			}
+		}
+		_ = ld.Close()
+		d, listing := c01IndexDigest(idx)
+		return "cidx " + d + listing
+	}
+	return "bad-op"
+}
+
 // sameModuloTimes: two files equal except for CreatedAt/ModifiedAt (header bytes 8..24).
 func c01SameModuloTimes(a, b []byte) bool {
 	if len(a) != len(b) {
@@ -358,12 +447,16 @@ func c01Run(in *bufio.Scanner, w *bufio.Writer) {
 	}
 	defer os.RemoveAll(dir)
 	s := &c01Sess{dir: dir}
+	ch := &c01Chron{}
+	nch := 0
 	for in.Scan() {
 		line := in.Text()
 		f := strings.Split(line, " ")
 		switch {
 		case f[0] == "case":
 			fmt.Fprintln(w, line)
+		case strings.HasPrefix(f[0], "c") && f[0] != "cfg" && f[0] != "close":
+			fmt.Fprintln(w, ch.apply(dir, &nch, f))
 		case f[0] == "raw" && len(f) == 2:
 			want, ok := c01Unhex(f[1])
 			if !ok {
@@ -514,8 +607,48 @@ func c01Gen(rng *rand.Rand, tier string, w *bufio.Writer) {
 	}
 	g.raw()
 
+	// ---- the chronicler path (lines are only emitted here; the generator does not need the files)
+	chCases := 40
+	if tier == "thorough" {
+		chCases = 600
+	}
+	for c := 0; c < chCases; c++ {
+		fmt.Fprintf(w, "case %d\n", caseNo)
+		caseNo++
+		bs := []int{0, 0, 64, 256, 1024, 16384}[rng.Intn(6)]
+		fmt.Fprintf(w, "ccfg %d x:%s\n", bs, c01Hex([]byte(fmt.Sprintf("verif/chron/s%d", c))))
+		var keys []string
+		for i := 0; i < 6; i++ {
+			kl := []int{1, 2, 7, 30, 300}[rng.Intn(5)]
+			if c == 0 && i == 0 {
+				kl = 70000 // the oversized key: the engine must not let it poison the file
+			}
+			if c == 1 && i == 0 {
+				kl = 0
+			}
+			keys = append(keys, fmt.Sprintf("g:%d:%d", kl, rng.Intn(1000)))
+		}
+		fmt.Fprintln(w, "cload")
+		for i, n := 0, 4+rng.Intn(40); i < n; i++ {
+			k := keys[rng.Intn(len(keys))]
+			switch p := rng.Intn(100); {
+			case p < 65:
+				fmt.Fprintf(w, "cw %s g:%d:%d\n", k, 1+rng.Intn([]int{8, 60, 600, 20000}[rng.Intn(4)]), rng.Intn(1000))
+			case p < 85:
+				fmt.Fprintf(w, "cd %s\n", k)
+			case p < 93:
+				fmt.Fprintln(w, "cclose")
+			default:
+				fmt.Fprintln(w, "cclose")
+				fmt.Fprintln(w, "cload")
+			}
+		}
+		fmt.Fprintln(w, "cclose")
+		fmt.Fprintln(w, "cload")
+	}
+
 	// ---- random histories
-	cases, maxOps := 260, 60
+	cases, maxOps := 190, 60
 	if tier == "thorough" {
 		cases, maxOps = 4000, 400
 	}
